@@ -704,7 +704,7 @@ theorem inv3_rdHp {s s' : St} {t r i v : Nat} (h2 : Inv2 s) (h3 : Inv3 s)
       simp only [hv0, if_false, List.length_append, List.length_cons, List.length_nil]
       omega
 
-theorem rc_le_sp {s : St} {t : Nat} {sp : List Nat} (h2 : Inv2 s) {p : Pc} (hpc : s.pc t = p)
+theorem rc_le_sp {s : St} {t : Nat} {sp : List Nat} (h2 : Inv2 s)
     (hsub : ∀ n ∈ s.rlist t, n ∈ sp) : (s.rlist t).length ≤ sp.length := by
   apply nodup_length_le _ hsub
   have := (h2.loc t).rl_nd
@@ -779,7 +779,7 @@ theorem scan_end_bound {s : St} {t : Nat} {c : Bool} {sp : List Nat} (h1 : Inv1 
   rw [hpc] at hl
   obtain ⟨_, b, c'⟩ := hl.scan
   have hrc : s.rc t = (s.rlist t).length := hl.rcok
-  have hle := rc_le_sp h2 hpc b
+  have hle := rc_le_sp h2 b
   have hpos := h1.thr_pos h3.kpos (joined_recs h1 (by rw [hpc]; rfl))
   refine ⟨by omega, c', by omega⟩
 
